@@ -16,3 +16,6 @@ pub use sequencer_relayer::{
     SequencerRelayer,
     ShutdownHandle,
 };
+
+#[cfg(feature = "verif")]
+pub mod verif;
